@@ -9,3 +9,4 @@ CONSTANTS
   Travs <- AllTravs
   MaxSteps = 5
   ViewHist = 0
+  EmitAll = TRUE
